@@ -33,7 +33,7 @@ structure RawTree where
 
 inductive TreeErr where
   | noHierarchy | badKeys | nonStrNode | orphan | missingChild | twoParents
-  | dupRows | repeatedChild | emptyHierarchy | noChildren
+  | dupRows | repeatedChild | emptyHierarchy | noChildren | dupLevel | noNodes
   | flatTree | levelNotInTree | isLeafLevel | badLevel | badNode
   deriving Repr, BEq, DecidableEq, Inhabited
 
@@ -43,6 +43,7 @@ def TreeErr.name : TreeErr → String
   | .missingChild => "missingChild" | .twoParents => "twoParents"
   | .dupRows => "dupRows" | .repeatedChild => "repeatedChild"
   | .emptyHierarchy => "emptyHierarchy" | .noChildren => "noChildren"
+  | .dupLevel => "dupLevel" | .noNodes => "noNodes"
   | .flatTree => "flatTree"
   | .levelNotInTree => "levelNotInTree" | .isLeafLevel => "isLeafLevel"
   | .badLevel => "badLevel" | .badNode => "badNode"
@@ -140,10 +141,20 @@ added by a later `fix:` commit than the repeated-child test.) -/
 def firstChildListErr (t : RawTree) : Option TreeErr :=
   ((levelPairs t.hierarchy).flatMap (fun (pl, _) => (t.level pl).map (·.2))).findSome? childListErr
 
+/-- `len(hierarchy) == 0 or len(taxonomy_tree[hierarchy[0]]) == 0` -/
+def topLevelEmpty (t : RawTree) : Bool :=
+  match t.hierarchy.head? with
+  | none => true
+  | some l0 => (t.level l0).isEmpty
+
 def validateWith (strictChildren : Bool) (t : RawTree) : Except TreeErr Unit :=
   if !t.hasHierarchy then .error .noHierarchy
+  -- `len(set(hierarchy)) != len(hierarchy)` (`fix:` 799c7a6)
+  else if hasDup t.hierarchy then .error .dupLevel
   else if !t.keysMatch then .error .badKeys
   else if !t.nodesAreStr then .error .nonStrNode
+  -- `len(hierarchy) == 0 or len(tree[hierarchy[0]]) == 0` (`fix:` 6649211)
+  else if t.topLevelEmpty then .error .noNodes
   else match checkLevelPairs t (levelPairs t.hierarchy) [] with
     | .error e => .error e
     | .ok _ =>
@@ -151,14 +162,16 @@ def validateWith (strictChildren : Bool) (t : RawTree) : Except TreeErr Unit :=
       | some e => .error e
       | none => match t.leafLevel with
         -- `leaf_level = taxonomy_tree['hierarchy'][-1]` : IndexError on `[]`
+        -- (unreachable since the no-nodes test above; kept for `get_taxonomy_tree`,
+        -- whose own `column_hierarchy[-1]` still raises it)
         | none => .error .emptyHierarchy
         | some _ =>
           if hasDup t.allRows then .error .dupRows
           else .ok ()
 
 /-- The validator as it stands in `/repo`: with the child-list tests of the
-`fix:` commits (`validateWith false` = the validator of the pinned tree, which
-had neither).  The obligations `generated_*` of Props/C10.lean tie the flag to
+`fix:` commits (`validateWith false` = without the two child-list tests; the
+duplicate-level and no-nodes tests of the later `fix:` commits are unconditional).  The obligations `generated_*` of Props/C10.lean tie the flag to
 the current source through `CTM/Generated/TreeConsts.lean`. -/
 def validate (t : RawTree) : Except TreeErr Unit := validateWith true t
 
